@@ -29,6 +29,14 @@ def main():
     wt = tempfile.mkdtemp(prefix="seedwt-")
     os.rmdir(wt)
     meta = {"name": name, "breaks_property": pids[0], "source": "independent sub-agent (given only the property text)", "at": time.strftime("%Y-%m-%dT%H:%M:%S")}
+    try:
+        old = json.load(open(os.path.join(out, "meta.json")))
+        for k in ("note", "base_commit"):
+            if k in old:
+                meta[k] = old[k]
+    except Exception:  # noqa: BLE001
+        pass
+    meta["evaluated_at_commit"] = sh(["git", "-C", "/repo", "log", "--format=%h", "-1"])[1].strip()
     rc, o = sh(["git", "-C", "/repo", "worktree", "add", "-q", "--detach", wt, "HEAD"])
     assert rc == 0, o
     try:
@@ -37,6 +45,13 @@ def main():
         rc0, o0 = sh(["/venv/bin/python", demo], cwd=wt, env=env, timeout=900)
         meta["demo_clean_exit"] = rc0
         rc, o = sh(["git", "apply", os.path.join(mdir, "patch.diff")], cwd=wt)
+        if rc != 0:
+            # later fix: commits moved the context: fall back to a 3-way merge, then to patch(1) with fuzz
+            rc, o = sh(["git", "apply", "--3way", os.path.join(mdir, "patch.diff")], cwd=wt)
+            if rc != 0:
+                sh(["git", "checkout", "--", "."], cwd=wt)
+                rc, o = sh(["patch", "-p1", "--fuzz=3", "-i", os.path.join(mdir, "patch.diff")], cwd=wt)
+            meta["applied_with_fallback"] = rc == 0
         meta["patch_applies_to_head"] = rc == 0
         if rc != 0:
             meta["apply_error"] = o[-500:]
